@@ -130,6 +130,77 @@ def handler_table(ctx):
     return table
 
 
+def handler_entry(ctx, variant, payload=None, argn="request"):
+    """(body, args) of the BinaryHandler command method that handle_request calls for a request of `variant`, with the
+    arguments it is called with there: the payload replaced by `payload` (default: a parameter named argn), the response
+    header by the parameter `response_header`, anything else (a direction enum, a response constructor handed in as a
+    fn pointer, ...) as evaluated at the call.  Several commands sharing one private method are thereby analysed each with
+    its own arguments, whatever that method is called."""
+    rows = handler_table(ctx).get(variant) or []
+    evs = [r["calls"] for r in rows if not r["path"].cut]
+    names = set(c.name for cs in evs for c in cs)
+    if len(names) != 1 or any(len(cs) != 1 for cs in evs):
+        raise AnchorMissing("the BinaryHandler method handling %s (handle_request calls %s for it)" % (variant, sorted(n.split("::")[-1] for n in names) or "nothing"))
+    ev = evs[0][0]
+    body = ctx.facts.bodies.get(ev.name)
+    if body is None:
+        raise AnchorMissing("the body of %s" % ev.name)
+    pv = payload if payload is not None else P(argn)
+    args = []
+    for a in ev.args:
+        t = tform(a)
+        if t == P("payload"):
+            args.append(pv)
+        elif t == P("self"):
+            args.append(P("self"))
+        elif isinstance(a, Struct) and (a.adt or "").endswith("::ResponseHeader"):
+            args.append(P("response_header"))
+        else:
+            args.append(a)
+    return body, args
+
+
+def store_methods_of_variant(ctx, variant):
+    """names of the MemcStore methods a request of this variant reaches through handle_request (handler methods inlined,
+    the payload left symbolic): what the dispatch does with the variant, whatever the private methods in between are called"""
+    key = "store_methods_of_variant:" + variant
+    if key not in ctx._cache:
+        f = ctx.facts
+        b = f.one(HANDLER + "::handle_request")
+        adt = f.adts[BREQ]
+        vi = [v["name"] for v in adt["variants"]].index(variant)
+        req = Struct(BREQ, variant, vi, OrderedDict([("0", P("payload"))]))
+        I = Interp(f, policy=lambda body, args: "opaque" if body.path.startswith(MEMC + "::") else "inline")
+        out = set()
+        for p in I.run(b, [P("self"), req]):
+            for e in p.events:
+                if e.kind == "call" and e.name.startswith(MEMC + "::"):
+                    out.add(e.name.split("::")[-1])
+        ctx._cache[key] = out
+    return ctx._cache[key]
+
+
+def variant_store_paths(ctx, variant, argn):
+    """paths of handle_request for a request of this variant whose payload is the parameter `argn`: handler methods inlined,
+    MemcStore opaque — what the server does with such a request, whichever private methods it goes through"""
+    f = ctx.facts
+    b = f.one(HANDLER + "::handle_request")
+    adt = f.adts[BREQ]
+    vi = [v["name"] for v in adt["variants"]].index(variant)
+    req = Struct(BREQ, variant, vi, OrderedDict([("0", P(argn))]))
+    I = Interp(f, policy=lambda body, args: "opaque" if body.path.startswith(MEMC + "::") else "inline")
+    return b, I.run(b, [P("self"), req])
+
+
+METHOD_VARIANT = {"set": "Set", "get": "Get", "delete": "Delete", "flush": "Flush", "increment": "Increment", "decrement": "Decrement", "add_replace": "Add", "append_prepend": "Append"}
+
+
+def handler_body_args(ctx, meth, argn, op=None, payload=None):
+    """handler_entry for the command the pinned tree handles in BinaryHandler::<meth> (and, when given, for opcode op)"""
+    variant = PROTOCOL[op] if op is not None else METHOD_VARIANT[meth]
+    return handler_entry(ctx, variant, payload, argn)
+
+
 def response_cases(ctx):
     """concrete responses a command can produce, as far as the quiet rules care: errors by status, and success"""
     f = ctx.facts
